@@ -2,6 +2,7 @@ package server
 
 import (
 	"fmt"
+	"net/url"
 	"strings"
 )
 
@@ -65,8 +66,33 @@ func (r *Router) Match(method HTTPMethod, path string) (*Route, map[string]strin
 		path = "/" + path
 	}
 
-	pathSegments := splitPath(path)
+	return r.matchSegments(routes, splitPath(path), path)
+}
 
+// MatchEscaped matches a request path that is still percent-encoded
+// (http.Request.URL.EscapedPath()). The path is split into segments first and
+// each segment is decoded afterwards, so an encoded slash (%2F) stays inside
+// its segment: /files/a%2Fb is the two segments "files" and "a/b", it binds
+// /files/:name with name = "a/b" and it is not the three-segment path
+// /files/a/b. Match, which takes a decoded path, cannot tell the two apart.
+func (r *Router) MatchEscaped(method HTTPMethod, escapedPath string) (*Route, map[string]string, error) {
+	routes, exists := r.routes[method]
+	if !exists {
+		return nil, nil, fmt.Errorf("no routes registered for method %s", method)
+	}
+
+	escapedPath = strings.TrimSpace(escapedPath)
+	segments := splitPath(escapedPath)
+	for i, seg := range segments {
+		if decoded, err := url.PathUnescape(seg); err == nil {
+			segments[i] = decoded
+		}
+	}
+	return r.matchSegments(routes, segments, escapedPath)
+}
+
+// matchSegments picks the route for already split and decoded path segments.
+func (r *Router) matchSegments(routes []*RouteNode, pathSegments []string, path string) (*Route, map[string]string, error) {
 	// Prefer the most specific match rather than the first registered one. A
 	// route captures fewer segments as parameters the more specific it is, so
 	// /api/posts/published wins over /api/posts/:id no matter which was
